@@ -192,6 +192,10 @@ def run(tier, seed):
     for leg in legs:
         per = 400
         jobs = [{"id": "c16a-%d" % k, "interps": [{"stdlib": True}], "steps": [{"src": e, "disp": True} for e in exprs[k:k + per]], "fuel": 5000} for k in range(0, len(exprs), per)]
+        from . import diff as _diff
+        for ji, j in enumerate(jobs):
+            if ji % 4 == 1:
+                _diff.age(j, ctx.rng, 150)
         recs = core.run_jobs(jobs, leg, timeout=900 if tier == "quick" else 3000, tag="c16a")
         printed = []      # (expr, canon, text)
         for k, rec in zip(range(0, len(exprs), per), recs):
